@@ -15,10 +15,10 @@ build() { (cd $WT && /venv/bin/python setup.py build_ext --inplace --force >/dev
 build
 tests_with=$(cd $WT && PYTHONPATH=$WT/src timeout 900 /venv/bin/python -m pytest -q -p no:cacheprovider --timeout=900 --continue-on-collection-errors 2>&1 | tail -1)
 (cd $WT && PYTHONPATH=$WT/src timeout 300 /venv/bin/python $DST/demo.py > $DST/demo_with_change.log 2>&1); rc_with=$?
-git -C $WT stash -q
+git -C $WT apply -R $DST/patch.diff      # (not git stash: the stash is shared by all worktrees of the repository)
 [ "$cpp" != "0" ] && build
 (cd $WT && PYTHONPATH=$WT/src timeout 300 /venv/bin/python $DST/demo.py > $DST/demo_clean.log 2>&1); rc_clean=$?
-git -C $WT stash pop -q
+git -C $WT apply $DST/patch.diff
 echo "tests with change: $tests_with"
 echo "demo with change rc=$rc_with ; clean rc=$rc_clean"
 results=""
